@@ -1,6 +1,10 @@
 (* C18_Model.v — executable model of the execution rate limit of a hook.  NO proofs here.
+   Three parts: (1) the limiter level: settings -> CreateRateLimiter -> token bucket;
+   (2) the operator's task flow (queues, handler, combining, retry of failed runs) without
+   the limiter; (3) the operator level: the queue workers of (2) with the limiter call of
+   taskHandleHookRun in front of every HookRun task, one limiter (1) per hook.
 
-   Go anchors (read side by side):
+   Go anchors of part 1 (read side by side):
      pkg/hook/config/config_v1.go  CheckAndConvertSettings      -> [check_and_convert_settings]
      pkg/hook/hook.go              CreateRateLimiter            -> [create_rate_limiter]
      pkg/hook/hook.go              RateLimitWait = RateLimiter.Wait(ctx)
@@ -152,4 +156,564 @@ Definition limiter_of_config (rs : option raw_settings) : option bucket :=
   match check_and_convert_settings rs with
   | None => None
   | Some cfg => Some (create_rate_limiter cfg)
+  end.
+
+(* ======================================================================================
+   The operator's task flow.  Transcribed, at task granularity, from
+     bootstrapMainQueue / initAndStartHookQueues        (operator.go)
+     ManagerEventsHandler.Start                         (manager_events_handler.go)
+     TaskQueue.Start worker loop                        (task_queue.go)
+     taskHandler / taskHandleEnableKubernetesBindings / taskHandleHookRun incl. the
+       Synchronization skip rules, combining, allowFailure, unlock   (operator.go)
+     combineBindingContextForHook                       (combine_binding_context.go)
+     GetHooksInOrder(OnStartup)                         (hook_manager.go)
+   This part is the task-flow model shared by C03/C04/C06/C17 (Op_Model.v as of commit
+   a93bce0), kept as a local copy so that C18 does not move when the shared file does;
+   [op_advance] is Op_Model.advance.  It has NO limiter: the workers with the limiter call
+   follow below ([advance_q_lim] ...), and C18_op_unlimited_is_plain_operator ties the two. *)
+Close Scope Z_scope.
+Inductive btype := BOnStartup | BKube | BSchedule.
+Inductive ckind := KStartup | KSync | KEvent | KSchedule.
+Inductive ttype := HookRun | EnableKube | EnableSched.
+
+(* a binding context, reduced to what decides the flow and what the hook can tell apart *)
+Record ctx := mkCtx {
+  c_binding : N;        (* binding name (dense number; 0 = "onStartup") *)
+  c_kind : ckind;
+  c_group : N;          (* 0 = no group *)
+  c_obj : N             (* payload: object/event number for Event contexts, else 0 *)
+}.
+
+Record task := mkTask {
+  t_type : ttype;
+  t_hook : N;
+  t_btype : btype;
+  t_ctxs : list ctx;
+  t_allow : bool;       (* HookMetadata.AllowFailure *)
+  t_group : N;          (* HookMetadata.Group *)
+  t_mids : list N;      (* HookMetadata.MonitorIDs *)
+  t_execsync : bool;    (* HookMetadata.ExecuteOnSynchronization *)
+  t_queue : N;          (* queue name; 0 = "main" *)
+  t_fail : N            (* failure count *)
+}.
+
+(* ---- static configuration: hooks in path order ---- *)
+Record kbinding := mkKb {
+  kb_name : N; kb_queue : N; kb_group : N; kb_allow : bool; kb_execsync : bool;
+  kb_mon : N            (* monitor id *)
+}.
+Record sbinding := mkSb {
+  sb_name : N; sb_queue : N; sb_group : N; sb_allow : bool; sb_cron : N
+}.
+Record hook := mkHook {
+  h_id : N; h_v0 : bool; h_startup : option Z;
+  h_kube : list kbinding; h_sched : list sbinding
+}.
+Definition config := list hook.
+
+Definition find_hook (cfg : config) (h : N) : option hook :=
+  find (fun x => N.eqb (h_id x) h) cfg.
+
+(* ---- dynamic state ---- *)
+Record qstate := mkQ {
+  q_name : N;
+  q_items : list task;
+  q_running : option bool
+    (* Some isSync: the worker is inside the handler of the head task (a hook execution is
+       open); isSync is hookMeta.IsSynchronization() as computed when the task was picked,
+       i.e. BEFORE combining *)
+}.
+
+Definition is_running (q : qstate) : bool := match q_running q with Some _ => true | None => false end.
+
+Record state := mkSt {
+  queues : list qstate;
+  sched_on : list N;    (* hooks whose schedule bindings are enabled *)
+  unlocked : list N;    (* monitors whose events are unlocked *)
+  mon_started : list N; (* monitors created and started *)
+  stopped : bool        (* Shutdown() was called: queue contexts are cancelled *)
+}.
+
+Inductive action :=
+| Boot
+| Tick (c : N)                         (* a crontab fires: ScheduleManager.Ch() *)
+| KubeEv (mon : N) (obj : N)           (* an unlocked monitor emits an event: KubeEventsManager.Ch();
+                                          obj numbers the event (object and watch-event type) *)
+| Finish (q : N) (ok : bool)           (* the hook execution open in queue q ends *)
+| Stop.                                (* Shutdown() *)
+
+(* ---- bootstrap ---- *)
+
+(* stable insertion sort by ORDER (GetHooksInOrder(OnStartup) after the F2 repair:
+   sort.SliceStable on the path-ordered list) *)
+Fixpoint insert_by_order (x : hook * Z) (l : list (hook * Z)) : list (hook * Z) :=
+  match l with
+  | [] => [x]
+  | y :: r => if Z.leb (snd x) (snd y) then x :: y :: r else y :: insert_by_order x r
+  end.
+Definition sort_by_order (l : list (hook * Z)) : list (hook * Z) :=
+  fold_right insert_by_order [] l.
+
+Definition startup_hooks (cfg : config) : list hook :=
+  map fst (sort_by_order
+             (flat_map (fun h => match h_startup h with Some o => [(h, o)] | None => [] end) cfg)).
+
+Definition startup_ctx : ctx := mkCtx 0 KStartup 0 0.
+
+(* onStartup and Enable* tasks are created without a queue name (""): the harness maps
+   the empty name to this number, which never names a queue *)
+Definition no_queue : N := 1000.
+
+Definition startup_task (h : hook) : task :=
+  mkTask HookRun (h_id h) BOnStartup [startup_ctx] false 0 [] false no_queue 0.
+
+Definition enable_tasks (h : hook) : list task :=
+  (match h_kube h with [] => [] | _ => [mkTask EnableKube (h_id h) BKube [] false 0 [] false no_queue 0] end)
+  ++ (match h_sched h with [] => [] | _ => [mkTask EnableSched (h_id h) BSchedule [] false 0 [] false no_queue 0] end).
+
+Definition boot_main (cfg : config) : list task :=
+  map startup_task (startup_hooks cfg) ++ flat_map enable_tasks cfg.
+
+Definition has_queue (qs : list qstate) (n : N) : bool := existsb (fun q => N.eqb (q_name q) n) qs.
+
+Definition add_queue (qs : list qstate) (n : N) : list qstate :=
+  if has_queue qs n then qs else qs ++ [mkQ n [] None].
+
+(* initAndStartHookQueues: queues of schedule bindings first, then of kubernetes bindings *)
+Definition boot_queues (cfg : config) : list qstate :=
+  let qs0 := [mkQ 0 (boot_main cfg) None] in
+  let qs1 := fold_left add_queue (flat_map (fun h => map sb_queue (h_sched h)) cfg) qs0 in
+  fold_left add_queue (flat_map (fun h => map kb_queue (h_kube h)) cfg) qs1.
+
+(* ---- events handler ---- *)
+
+Definition sched_tasks (cfg : config) (on : list N) (c : N) : list task :=
+  flat_map (fun h =>
+    if mem_N (h_id h) on then
+      flat_map (fun b =>
+        if N.eqb (sb_cron b) c then
+          [mkTask HookRun (h_id h) BSchedule [mkCtx (sb_name b) KSchedule (sb_group b) 0]
+                  (sb_allow b) (sb_group b) [] false (sb_queue b) 0]
+        else []) (h_sched h)
+    else []) cfg.
+
+Definition kube_tasks (cfg : config) (unl : list N) (mon obj : N) : list task :=
+  if mem_N mon unl then
+    flat_map (fun h =>
+      flat_map (fun b =>
+        if N.eqb (kb_mon b) mon then
+          [mkTask HookRun (h_id h) BKube [mkCtx (kb_name b) KEvent (kb_group b) obj]
+                  (kb_allow b) (kb_group b) [] false (kb_queue b) 0]
+        else []) (h_kube h)) cfg
+  else [].
+
+(* AddLast to the queue named in the task; a task for a missing queue is logged and dropped *)
+Fixpoint append_task (qs : list qstate) (t : task) : list qstate :=
+  match qs with
+  | [] => []
+  | q :: r => if N.eqb (q_name q) (t_queue t)
+              then mkQ (q_name q) (q_items q ++ [t]) (q_running q) :: r
+              else q :: append_task r t
+  end.
+Definition append_tasks (qs : list qstate) (ts : list task) : list qstate :=
+  fold_left append_task ts qs.
+
+(* ---- handler pieces ---- *)
+
+(* compaction: a grouped context is dropped iff the next one has the same group *)
+Fixpoint compact (l : list ctx) : list ctx :=
+  match l with
+  | [] => []
+  | c :: r =>
+      match r with
+      | n :: _ => if negb (N.eqb (c_group c) 0) && N.eqb (c_group n) (c_group c)
+                  then compact r else c :: compact r
+      | [] => [c]
+      end
+  end.
+
+(* tasks immediately following the head for the same hook and of the same task type;
+   when the head is a Synchronization, combining stops at a Synchronization whose
+   ExecuteOnSynchronization is false (stopCombineFn, repair F9) *)
+Definition is_sync (t : task) : bool :=
+  match t_btype t, t_ctxs t with
+  | BKube, c :: _ => match c_kind c with KSync => true | _ => false end
+  | _, _ => false
+  end.
+
+Definition same_ttype (a b : ttype) : bool :=
+  match a, b with
+  | HookRun, HookRun | EnableKube, EnableKube | EnableSched, EnableSched => true
+  | _, _ => false
+  end.
+
+Fixpoint take_block (t : task) (l : list task) : list task * list task :=
+  match l with
+  | [] => ([], [])
+  | x :: r =>
+      if N.eqb (t_hook x) (t_hook t) && same_ttype (t_type x) (t_type t)
+         && negb (is_sync t && is_sync x && negb (t_execsync x))
+      then let (b, rest) := take_block t r in (x :: b, rest)
+      else ([], l)
+  end.
+
+Definition set_combined (t : task) (cs : list ctx) (ms : list N) (allow : bool) : task :=
+  mkTask (t_type t) (t_hook t) (t_btype t) cs allow (t_group t) ms
+         (t_execsync t) (t_queue t) (t_fail t).
+
+(* combineBindingContextForHook on head [t] of queue [t :: rest]: new head, remaining queue.
+   The combined task allows failure only if every merged task does (repair F6). *)
+Definition combine (t : task) (rest : list task) : task * list task :=
+  let (block, rest') := take_block t rest in
+  match block with
+  | [] => (t, rest)
+  | _ =>
+      let cs := compact (t_ctxs t ++ flat_map t_ctxs block) in
+      let ms := t_mids t ++ flat_map t_mids block in
+      (set_combined t cs ms (t_allow t && forallb t_allow block), rest')
+  end.
+
+Definition should_run (v0 : bool) (t : task) : bool :=
+  negb (is_sync t && (v0 || negb (t_execsync t))).
+
+Definition should_combine (t : task) : bool :=
+  negb (is_sync t && N.eqb (t_group t) 0).
+
+Definition sync_task (h : hook) (b : kbinding) : task :=
+  mkTask HookRun (h_id h) BKube [mkCtx (kb_name b) KSync (kb_group b) 0]
+         (kb_allow b) (kb_group b) [kb_mon b] (kb_execsync b) 0 0.
+
+(* the part of the state a queue worker touches besides its own queue *)
+Record shared := mkSh { s_sched_on : list N; s_unlocked : list N; s_mon_started : list N }.
+
+(* The worker of one queue, run until it blocks in a hook execution or finds the
+   queue empty.  Returns the items, whether an execution is open, the shared state. *)
+Fixpoint advance_q (fuel : nat) (cfg : config) (qok : N -> bool) (items : list task) (sh : shared)
+  : list task * option bool * shared :=
+  match fuel with
+  | O => (items, None, sh)
+  | S fuel' =>
+      match items with
+      | [] => ([], None, sh)
+      | t :: rest =>
+          match t_type t with
+          | EnableKube =>
+              match find_hook cfg (t_hook t) with
+              | Some h =>
+                  advance_q fuel' cfg qok (map (sync_task h) (h_kube h) ++ rest)
+                            (mkSh (s_sched_on sh) (s_unlocked sh)
+                                  (s_mon_started sh ++ map kb_mon (h_kube h)))
+              | None => advance_q fuel' cfg qok rest sh
+              end
+          | EnableSched =>
+              advance_q fuel' cfg qok rest (mkSh (s_sched_on sh ++ [t_hook t]) (s_unlocked sh) (s_mon_started sh))
+          | HookRun =>
+              let v0 := match find_hook cfg (t_hook t) with Some h => h_v0 h | None => false end in
+              if should_run v0 t then
+                if negb v0 && should_combine t && qok (t_queue t) then
+                  (* combine looks the queue up by the task's queue name; no such queue: no combining *)
+                  let (t', rest') := combine t rest in (t' :: rest', Some (is_sync t), sh)
+                else (t :: rest, Some (is_sync t), sh)
+              else
+                (* skipped Synchronization: Success at once, unlock its monitors *)
+                advance_q fuel' cfg qok rest
+                          (mkSh (s_sched_on sh) (s_unlocked sh ++ t_mids t) (s_mon_started sh))
+          end
+      end
+  end.
+
+Definition task_weight (cfg : config) (t : task) : nat :=
+  match t_type t with
+  | EnableKube => match find_hook cfg (t_hook t) with Some h => S (length (h_kube h)) | None => 1 end
+  | _ => 1
+  end.
+Definition fuel_for (cfg : config) (items : list task) : nat :=
+  S (fold_right (fun t n => task_weight cfg t + n) 0 items).
+
+Fixpoint advance_all (cfg : config) (qok : N -> bool) (qs : list qstate) (sh : shared) : list qstate * shared :=
+  match qs with
+  | [] => ([], sh)
+  | q :: r =>
+      if is_running q then
+        let (r', sh') := advance_all cfg qok r sh in (q :: r', sh')
+      else
+        let '(items, run, sh1) := advance_q (fuel_for cfg (q_items q)) cfg qok (q_items q) sh in
+        let (r', sh') := advance_all cfg qok r sh1 in
+        (mkQ (q_name q) items run :: r', sh')
+  end.
+
+Definition op_advance (cfg : config) (s : state) : state :=
+  if stopped s then s else
+  let (qs, sh) := advance_all cfg (has_queue (queues s)) (queues s) (mkSh (sched_on s) (unlocked s) (mon_started s)) in
+  mkSt qs (s_sched_on sh) (s_unlocked sh) (s_mon_started sh) false.
+
+(* ---- the end of a hook execution ---- *)
+
+Definition incr_fail (t : task) : task :=
+  mkTask (t_type t) (t_hook t) (t_btype t) (t_ctxs t) (t_allow t) (t_group t) (t_mids t)
+         (t_execsync t) (t_queue t) (N.succ (t_fail t)).
+
+(* Finish in queue [q]: the handler computes the status (allowFailure of the task, which
+   after combining is the head's), unlocks after a successful Synchronization, returns;
+   the worker then checks ctx.Done: when stopped the result is NOT applied. *)
+Fixpoint finish_in (qs : list qstate) (qn : N) (ok stp : bool) (unl : list N) : list qstate * list N :=
+  match qs with
+  | [] => ([], unl)
+  | q :: r =>
+      if N.eqb (q_name q) qn then
+        match q_running q, q_items q with
+        | Some sync, t :: rest =>
+            let success := ok || t_allow t in
+            let unl' := if success && sync then unl ++ t_mids t else unl in
+            if stp then (mkQ (q_name q) (q_items q) None :: r, unl')
+            else if success then (mkQ (q_name q) rest None :: r, unl')
+            else (mkQ (q_name q) (incr_fail t :: rest) None :: r, unl')
+        | _, _ => (q :: r, unl)
+        end
+      else let (r', unl') := finish_in r qn ok stp unl in (q :: r', unl')
+  end.
+
+Definition step (cfg : config) (s : state) (a : action) : state :=
+  let s1 :=
+    match a with
+    | Boot => match queues s with
+              | [] => mkSt (boot_queues cfg) (sched_on s) (unlocked s) (mon_started s) (stopped s)
+              | _ => s
+              end
+    | Tick c => mkSt (append_tasks (queues s) (sched_tasks cfg (sched_on s) c))
+                     (sched_on s) (unlocked s) (mon_started s) (stopped s)
+    | KubeEv m o => mkSt (append_tasks (queues s) (kube_tasks cfg (unlocked s) m o))
+                           (sched_on s) (unlocked s) (mon_started s) (stopped s)
+    | Finish qn ok =>
+        let (qs, unl) := finish_in (queues s) qn ok (stopped s) (unlocked s) in
+        mkSt qs (sched_on s) unl (mon_started s) (stopped s)
+    | Stop => mkSt (queues s) (sched_on s) (unlocked s) (mon_started s) true
+    end in
+  op_advance cfg s1.
+
+Definition init : state := mkSt [] [] [] [] false.
+
+Definition exec (cfg : config) (acts : list action) (s : state) : state :=
+  fold_left (step cfg) acts s.
+
+Fixpoint trace_from (cfg : config) (s : state) (acts : list action) : list state :=
+  match acts with
+  | [] => []
+  | a :: r => let s' := step cfg s a in s' :: trace_from cfg s' r
+  end.
+Definition trace (cfg : config) (acts : list action) : list state := trace_from cfg init acts.
+Open Scope Z_scope.
+
+(* ======================================================================================
+   Operator level: the queue workers in front of the limiters.
+
+   Go anchors:
+     pkg/shell-operator/operator.go  taskHandleHookRun: the FIRST statement is
+         err := taskHook.RateLimitWait(context.Background()); if err != nil { return Repeat }
+       for every HookRun task whatever its binding type (onStartup, schedule, kubernetes
+       Synchronization or Event), its failure count (first attempt or retry after Fail),
+       allowFailure, and whether the hook is going to be executed at all (a skipped
+       Synchronization still takes a token)                       -> [advance_q_lim]
+     pkg/task/queue/task_queue.go    worker loop: Fail keeps the task at the head and
+       handles it again after the back-off; Repeat handles it again after DelayOnRepeat
+     pkg/hook/hook.go                one *rate.Limiter per hook (Hook.RateLimiter), shared
+       by all queues that carry tasks of the hook                 -> [limiters]
+
+   Everything else of the task flow (bootstrap, events handler, skip rules, combining,
+   allowFailure, unlock, Finish) is the task-flow model above.
+
+   Time.  Every action of a script carries the instant (ns, one clock) at which it happens;
+   the workers it sets in motion enter their handlers at that instant.  A worker whose
+   reservation lies in the future sleeps in Limiter.Wait: its queue is recorded in
+   [l_waiting] with the wake-up instant and is not advanced any more.  Waking up is NOT
+   modelled: [l_overrun] is raised as soon as an action happens at or after a pending
+   wake-up instant, and from then on the model says nothing about the implementation (the
+   correspondence uses intervals far longer than a scenario; what the limiter does when
+   time passes is the limiter-level model above).  The theorems hold with or without it.
+
+   Ghost log: every limiter call and every execution start is appended to [l_log]. *)
+
+Inductive levent :=
+| LReq (h : N) (t : Z) (a : option Z)   (* RateLimitWait of hook h entered at t; timeToAct / refused *)
+| LStart (h : N) (q : N) (t : Z).       (* an execution of hook h starts in queue q at t *)
+
+(* Hook.RateLimiter of every hook *)
+Definition limiters := N -> bucket.
+Definition set_lim (ls : limiters) (h : N) (b : bucket) : limiters :=
+  fun x => if N.eqb x h then b else ls x.
+
+(* the settings each hook was loaded with (hook id, htypes.Settings or nil) *)
+Definition hook_settings := list (N * option settings).
+Definition settings_of (hs : hook_settings) (h : N) : option settings :=
+  match find (fun p => N.eqb (fst p) h) hs with Some p => snd p | None => None end.
+Definition init_limiters (hs : hook_settings) : limiters :=
+  fun h => create_rate_limiter (settings_of hs h).
+
+(* where a worker is after [advance_q_lim] *)
+Inductive wstatus :=
+| WFree                  (* queue empty *)
+| WRun (sync : bool)     (* inside the handler, hook execution open (as [q_running]) *)
+| WWait (until : Z)      (* inside the handler, sleeping in RateLimitWait until [until] *)
+| WRepeat.               (* RateLimitWait failed: Repeat, the same task again and again *)
+
+Record wctx := mkW { w_sh : shared; w_lims : limiters; w_log : list levent }.
+
+(* [advance_q] with the limiter call in front of every HookRun task; [qn] is the
+   name of the queue the worker belongs to, [now] the instant it enters its handlers *)
+Fixpoint advance_q_lim (fuel : nat) (cfg : config) (qok : N -> bool) (now : Z) (qn : N)
+                       (items : list task) (w : wctx) : list task * wstatus * wctx :=
+  match fuel with
+  | O => (items, WFree, w)
+  | S fuel' =>
+      match items with
+      | [] => ([], WFree, w)
+      | t :: rest =>
+          match t_type t with
+          | EnableKube =>
+              match find_hook cfg (t_hook t) with
+              | Some h =>
+                  advance_q_lim fuel' cfg qok now qn (map (sync_task h) (h_kube h) ++ rest)
+                    (mkW (mkSh (s_sched_on (w_sh w)) (s_unlocked (w_sh w))
+                               (s_mon_started (w_sh w) ++ map kb_mon (h_kube h)))
+                         (w_lims w) (w_log w))
+              | None => advance_q_lim fuel' cfg qok now qn rest w
+              end
+          | EnableSched =>
+              advance_q_lim fuel' cfg qok now qn rest
+                (mkW (mkSh (s_sched_on (w_sh w) ++ [t_hook t]) (s_unlocked (w_sh w)) (s_mon_started (w_sh w)))
+                     (w_lims w) (w_log w))
+          | HookRun =>
+              (* err := taskHook.RateLimitWait(context.Background()) *)
+              let (b', a) := reserve (w_lims w (t_hook t)) now in
+              let w1 := mkW (w_sh w) (set_lim (w_lims w) (t_hook t) b') (w_log w ++ [LReq (t_hook t) now a]) in
+              match a with
+              | None => (items, WRepeat, w1)
+              | Some act =>
+                  if now <? act then (items, WWait act, w1)
+                  else
+                    let v0 := match find_hook cfg (t_hook t) with Some h => h_v0 h | None => false end in
+                    if should_run v0 t then
+                      let w2 := mkW (w_sh w1) (w_lims w1) (w_log w1 ++ [LStart (t_hook t) qn now]) in
+                      if negb v0 && should_combine t && qok (t_queue t) then
+                        let (t', rest') := combine t rest in (t' :: rest', WRun (is_sync t), w2)
+                      else (t :: rest, WRun (is_sync t), w2)
+                    else
+                      advance_q_lim fuel' cfg qok now qn rest
+                        (mkW (mkSh (s_sched_on (w_sh w1)) (s_unlocked (w_sh w1) ++ t_mids t) (s_mon_started (w_sh w1)))
+                             (w_lims w1) (w_log w1))
+              end
+          end
+      end
+  end.
+
+(* queues whose worker sleeps in RateLimitWait: name, wake-up instant (None: Repeat loop) *)
+Definition waiting := list (N * option Z).
+Definition is_waiting (wt : waiting) (q : N) : bool := existsb (fun p => N.eqb (fst p) q) wt.
+
+Definition run_of (st : wstatus) : option bool := match st with WRun s => Some s | _ => None end.
+Definition wait_of (q : N) (st : wstatus) : waiting :=
+  match st with WWait u => [(q, Some u)] | WRepeat => [(q, None)] | _ => [] end.
+
+Fixpoint advance_all_lim (cfg : config) (qok : N -> bool) (now : Z) (wt : waiting)
+                         (qs : list qstate) (w : wctx) : list qstate * waiting * wctx :=
+  match qs with
+  | [] => ([], wt, w)
+  | q :: r =>
+      if is_running q || is_waiting wt (q_name q) then
+        let '(r', wt', w') := advance_all_lim cfg qok now wt r w in (q :: r', wt', w')
+      else
+        let '(items, st, w1) := advance_q_lim (fuel_for cfg (q_items q)) cfg qok now (q_name q) (q_items q) w in
+        let '(r', wt', w') := advance_all_lim cfg qok now (wt ++ wait_of (q_name q) st) r w1 in
+        (mkQ (q_name q) items (run_of st) :: r', wt', w')
+  end.
+
+Record lstate := mkL {
+  l_op : state;            (* the operator state of the task-flow model *)
+  l_waiting : waiting;
+  l_lims : limiters;
+  l_log : list levent;
+  l_overrun : bool
+}.
+
+Definition advance_lim (cfg : config) (now : Z) (ls : lstate) : lstate :=
+  let s := l_op ls in
+  if stopped s then ls else
+  let '(qs, wt, w) := advance_all_lim cfg (has_queue (queues s)) now (l_waiting ls) (queues s)
+                        (mkW (mkSh (sched_on s) (unlocked s) (mon_started s)) (l_lims ls) (l_log ls)) in
+  mkL (mkSt qs (s_sched_on (w_sh w)) (s_unlocked (w_sh w)) (s_mon_started (w_sh w)) false)
+      wt (w_lims w) (w_log w) (l_overrun ls).
+
+(* the effect of an action before the workers move: the first half of [step] *)
+Definition pre_step (cfg : config) (s : state) (a : action) : state :=
+  match a with
+  | Boot => match queues s with
+            | [] => mkSt (boot_queues cfg) (sched_on s) (unlocked s) (mon_started s) (stopped s)
+            | _ => s
+            end
+  | Tick c => mkSt (append_tasks (queues s) (sched_tasks cfg (sched_on s) c))
+                   (sched_on s) (unlocked s) (mon_started s) (stopped s)
+  | KubeEv m o => mkSt (append_tasks (queues s) (kube_tasks cfg (unlocked s) m o))
+                       (sched_on s) (unlocked s) (mon_started s) (stopped s)
+  | Finish qn ok =>
+      let (qs, unl) := finish_in (queues s) qn ok (stopped s) (unlocked s) in
+      mkSt qs (sched_on s) unl (mon_started s) (stopped s)
+  | Stop => mkSt (queues s) (sched_on s) (unlocked s) (mon_started s) true
+  end.
+
+Definition due (now : Z) (wt : waiting) : bool :=
+  existsb (fun p => match snd p with Some u => u <=? now | None => false end) wt.
+
+Definition step_lim (cfg : config) (ls : lstate) (ta : Z * action) : lstate :=
+  advance_lim cfg (fst ta)
+    (mkL (pre_step cfg (l_op ls) (snd ta)) (l_waiting ls) (l_lims ls) (l_log ls)
+         (l_overrun ls || due (fst ta) (l_waiting ls))).
+
+Definition init_lim (hs : hook_settings) : lstate := mkL init [] (init_limiters hs) [] false.
+
+Definition run_lim (cfg : config) (ls : lstate) (script : list (Z * action)) : lstate :=
+  fold_left (step_lim cfg) script ls.
+
+Fixpoint trace_lim_from (cfg : config) (ls : lstate) (script : list (Z * action)) : list lstate :=
+  match script with
+  | [] => []
+  | ta :: r => let ls' := step_lim cfg ls ta in ls' :: trace_lim_from cfg ls' r
+  end.
+Definition trace_lim (cfg : config) (hs : hook_settings) (script : list (Z * action)) : list lstate :=
+  trace_lim_from cfg (init_lim hs) script.
+
+(* projections of the ghost log *)
+Fixpoint reqs_of (h : N) (log : list levent) : list Z :=
+  match log with
+  | [] => []
+  | LReq h' t _ :: r => if N.eqb h' h then t :: reqs_of h r else reqs_of h r
+  | _ :: r => reqs_of h r
+  end.
+Fixpoint acts_of (h : N) (log : list levent) : list (option Z) :=
+  match log with
+  | [] => []
+  | LReq h' _ a :: r => if N.eqb h' h then a :: acts_of h r else acts_of h r
+  | _ :: r => acts_of h r
+  end.
+Fixpoint starts_in (h : N) (log : list levent) : list Z :=
+  match log with
+  | [] => []
+  | LStart h' _ t :: r => if N.eqb h' h then t :: starts_in h r else starts_in h r
+  | _ :: r => starts_in h r
+  end.
+(* hooks that were throttled: a RateLimitWait that did not return at once *)
+Fixpoint throttled_in (log : list levent) : list N :=
+  match log with
+  | [] => []
+  | LReq h t a :: r => match a with
+                       | Some x => if x =? t then throttled_in r else h :: throttled_in r
+                       | None => h :: throttled_in r
+                       end
+  | _ :: r => throttled_in r
+  end.
+(* every execution start in the log: (hook, instant) *)
+Fixpoint starts_all (log : list levent) : list (N * Z) :=
+  match log with
+  | [] => []
+  | LStart h _ t :: r => (h, t) :: starts_all r
+  | _ :: r => starts_all r
   end.
